@@ -8,6 +8,7 @@ import (
 	"io"
 	"math"
 	"math/big"
+	"strings"
 
 	"gonum.org/v1/gonum/mat"
 	"verif/simio"
@@ -172,6 +173,7 @@ const streamAllocLimit = 1 << 24
 type matCodec struct {
 	name      string
 	vec       bool
+	value     mat.Matrix
 	encode    func() ([]byte, error)
 	encodeTo  func(w io.Writer) (int, error)
 	decode    func(b []byte) (wf string, err error)                       // byte-slice API into a fresh value; wf = well-formedness complaint of an accepted value
@@ -181,7 +183,7 @@ type matCodec struct {
 }
 
 func denseCodec(m *mat.Dense) *matCodec {
-	return &matCodec{name: "Dense",
+	return &matCodec{name: "Dense", value: m,
 		encode:   m.MarshalBinary,
 		encodeTo: m.MarshalBinaryTo,
 		decode: func(b []byte) (string, error) {
@@ -222,7 +224,7 @@ func denseCodec(m *mat.Dense) *matCodec {
 }
 
 func vecCodec(v *mat.VecDense) *matCodec {
-	return &matCodec{name: "VecDense", vec: true,
+	return &matCodec{name: "VecDense", vec: true, value: v,
 		encode:   v.MarshalBinary,
 		encodeTo: v.MarshalBinaryTo,
 		decode: func(b []byte) (string, error) {
@@ -296,6 +298,30 @@ func runMatBinary(c *Ctx) *Violation {
 	}
 	name := cd.name
 	tc := tapeChooser{t}
+
+	// ---- the printed forms (mat/format.go): Formatted with every option
+	// prints the value; a panic inside Format surfaces as "%!v(PANIC=" ----
+	if cd.value != nil {
+		if v := c.Guard(name+"/formatted", func() string { return fmt.Sprint(c.Instance["value"]) }, func() *Violation {
+			c.Case("control", false, 555)
+			c.Oracle("formatted-prints")
+			r, cl := cd.value.Dims()
+			for _, opts := range [][]mat.FormatOption{
+				nil, {mat.Excerpt(1)}, {mat.Excerpt(2)}, {mat.Excerpt(3), mat.Squeeze()}, {mat.Prefix("  "), mat.Squeeze()},
+				{mat.FormatMATLAB()}, {mat.FormatPython()}, {mat.FormatPython(), mat.Excerpt(1)}, {mat.DotByte('.')},
+			} {
+				for _, verb := range []string{"%v", "%.3g", "%#v", "%6.2f", "%e"} {
+					out := fmt.Sprintf(verb, mat.Formatted(cd.value, opts...))
+					if strings.Contains(out, "PANIC=") {
+						return viol("mat-binary/"+name+"/formatted-panics", "fmt.Sprintf(%q, mat.Formatted(m, option set %d)) of a %dx%d matrix prints %s", verb, len(opts), r, cl, out)
+					}
+				}
+			}
+			return nil
+		}); v != nil {
+			return v
+		}
+	}
 
 	// ---- control arm (no faults) ----
 	var enc []byte
